@@ -167,7 +167,7 @@ def gen_ext(rng, variant):
     }[variant]
 
 
-RPS = ["example.com", "", "a", "future.1password.com", "xn--bcher-kva.example", "bücher.example", "localhost",
+RPS = ["example.com", "Example.COM", "EXAMPLE.com", "com.Example.App", "", "a", "future.1password.com", "xn--bcher-kva.example", "bücher.example", "localhost",
        "x" * 55, "x" * 56, "x" * 64, "x" * 119, "x" * 120, "漢字.jp"]
 COUNTERS = [None, 0, 1, 255, 256, 65536, 0x01020304, 0x7FFFFFFF, 0x80000000, 0xFFFFFFFF]
 
